@@ -306,11 +306,22 @@ def language_difference(pattern, method):
     return None
 
 
-def find_sid_regex(func_node):
-    """(pattern, method) used by sid_to_bytes: re.compile(<literal>) and the method applied to the input string."""
+def find_sid_regex(func_node, module_node=None):
+    """(pattern, method) used by sid_to_bytes: re.compile(<literal>) - in the function or hoisted to a module-level constant that
+    the function uses - and the method applied to the input string."""
     pattern = None
     names = set()
     method = None
+    used = {n.id for n in ast.walk(func_node) if isinstance(n, ast.Name)}
+    module_assigns = [n for n in (module_node.body if module_node is not None else []) if isinstance(n, (ast.Assign, ast.AnnAssign))]
+    for n in module_assigns:
+        if isinstance(n, ast.AnnAssign) and n.value is not None:
+            n = ast.Assign(targets=[n.target], value=n.value)
+        if isinstance(n, ast.Assign) and isinstance(n.value, ast.Call) and ast.unparse(n.value.func) == "re.compile" and {t.id for t in n.targets if isinstance(t, ast.Name)} & used:
+            if len(n.value.args) != 1 or n.value.keywords or not isinstance(n.value.args[0], ast.Constant):
+                raise Unsupported("re.compile with flags or a computed pattern")
+            pattern = n.value.args[0].value
+            names |= {t.id for t in n.targets if isinstance(t, ast.Name)} & used
     for n in ast.walk(func_node):
         if isinstance(n, ast.Assign) and isinstance(n.value, ast.Call) and ast.unparse(n.value.func) == "re.compile":
             if len(n.value.args) != 1 or n.value.keywords or not isinstance(n.value.args[0], ast.Constant):
@@ -433,7 +444,7 @@ def sid_to_bytes(c):
     # 1) the accepted language is exactly the canonical syntax (decided on automata, with a witness string when not)
     fi = c.fi
     try:
-        pattern, method = find_sid_regex(fi.node)
+        pattern, method = find_sid_regex(fi.node, c.I.P.module_ast.get(fi.module))
         diff = language_difference(pattern, method)
         detail = "" if diff is None else f"{diff[0]!r}: {diff[1]} (pattern {pattern!r}, method {method})"
         c.ctx.prove("dpapi_ng._security_descriptor.sid_to_bytes/regex.language-is-the-canonical-sid-syntax", diff is None, detail)
